@@ -10,9 +10,9 @@
 void * __real_malloc(size_t); void * __real_calloc(size_t, size_t); void * __real_realloc(void *, size_t); void __real_free(void *);
 
 #define TABSZ (1 << 14)
-struct ent { void * p; size_t sz; size_t seq; };	/* p == NULL empty, p == (void*)1 tombstone */
+struct ent { void * p; size_t sz; size_t seq; int shift; };	/* p == NULL empty, p == (void*)1 tombstone */
 static struct ent tab[TABSZ];
-static int tracking_on, suspended;
+static int tracking_on, suspended, misalign;
 #define tracking (tracking_on && !suspended)
 static int unused_; static size_t ncalls, nlive, livebytes, fail_k; static int fail_persist, nfailed;
 void (*alloc_free_hook)(void *, size_t) = NULL;
@@ -30,13 +30,15 @@ static void
 insert(void * p, size_t sz)
 {
 	size_t i = slot(p), n;
-	for (n = 0; n < TABSZ; n++, i = (i + 1) & (TABSZ - 1)) if (tab[i].p == NULL || tab[i].p == (void *)1) { tab[i].p = p; tab[i].sz = sz; tab[i].seq = ncalls; nlive++; livebytes += sz; return; }
+	for (n = 0; n < TABSZ; n++, i = (i + 1) & (TABSZ - 1)) if (tab[i].p == NULL || tab[i].p == (void *)1) { tab[i].p = p; tab[i].sz = sz; tab[i].seq = ncalls; tab[i].shift = 0; nlive++; livebytes += sz; return; }
 	fprintf(stderr, "alloc: table full\n"); abort();
 }
 static void
 removeent(struct ent * e){ nlive--; livebytes -= e->sz; e->p = (void *)1; }
 
 void alloc_track(int on){ tracking_on = on; }
+/* while on, tracked malloc/calloc blocks start 8 bytes past a 16-byte boundary (an allocator with 8-byte alignment) */
+void alloc_misalign(int on){ misalign = on; }
 /* engine/harness code brackets its own allocations with alloc_suspend(1) / alloc_suspend(-1) */
 void alloc_suspend(int delta){ suspended += delta; }
 void alloc_reset(void){ memset(tab, 0, sizeof(tab)); ncalls = nlive = livebytes = 0; fail_k = 0; fail_persist = 0; nfailed = 0; }
@@ -70,6 +72,13 @@ __wrap_malloc(size_t n)
 	void * p;
 	if (!tracking) return __real_malloc(n);
 	if (should_fail()) return NULL;
+	if (misalign) {
+		struct ent * e;
+		if ((p = __real_malloc(n + 16)) == NULL) return NULL;
+		p = (char *)p + 8; insert(p, n); if ((e = find(p)) != NULL) e->shift = 8;
+		if (alloc_alloc_hook) alloc_alloc_hook(p, n);
+		return p;
+	}
 	p = __real_malloc(n);
 	if (p != NULL) { insert(p, n); if (alloc_alloc_hook) alloc_alloc_hook(p, n); }
 	return p;
@@ -80,6 +89,13 @@ __wrap_calloc(size_t a, size_t b)
 	void * p;
 	if (!tracking) return __real_calloc(a, b);
 	if (should_fail()) return NULL;
+	if (misalign) {
+		struct ent * e;
+		if ((p = __real_calloc(1, a * b + 16)) == NULL) return NULL;
+		p = (char *)p + 8; insert(p, a * b); if ((e = find(p)) != NULL) e->shift = 8;
+		if (alloc_alloc_hook) alloc_alloc_hook(p, a * b);
+		return p;
+	}
 	p = __real_calloc(a, b);
 	if (p != NULL) { insert(p, a * b); if (alloc_alloc_hook) alloc_alloc_hook(p, a * b); }
 	return p;
@@ -88,9 +104,31 @@ void *
 __wrap_realloc(void * old, size_t n)
 {
 	void * p; struct ent * e;
-	if (!tracking) { if (old != NULL && (e = find(old)) != NULL) removeent(e); return __real_realloc(old, n); }
+	if (!tracking) {
+		if (old != NULL && (e = find(old)) != NULL) {
+			if (e->shift) {		/* shifted block resized outside tracking: move it to an ordinary block */
+				size_t osz = e->sz;
+				if (n == 0) { removeent(e); __real_free((char *)old - 8); return NULL; }
+				if ((p = __real_malloc(n)) == NULL) return NULL;
+				memcpy(p, old, osz < n ? osz : n); removeent(e); __real_free((char *)old - 8);
+				return p;
+			}
+			removeent(e);
+		}
+		return __real_realloc(old, n);
+	}
 	if (should_fail()) return NULL;
 	e = old ? find(old) : NULL;
+	if (e != NULL && e->shift) {	/* a shifted block cannot be handed to the real realloc: move it */
+		size_t osz = e->sz;
+		if (n == 0) { if (alloc_free_hook) alloc_free_hook(old, osz); removeent(e); __real_free((char *)old - 8); return NULL; }
+		if ((p = __real_malloc(n)) == NULL) return NULL;
+		memcpy(p, old, osz < n ? osz : n);
+		if (alloc_free_hook) alloc_free_hook(old, osz);
+		removeent(e); __real_free((char *)old - 8);
+		insert(p, n); if (alloc_alloc_hook) alloc_alloc_hook(p, n);
+		return p;
+	}
 	if (e != NULL && alloc_free_hook && n == 0) alloc_free_hook(old, e->sz);
 	p = __real_realloc(old, n);
 	if (p != NULL || n == 0) { if (e != NULL) removeent(e); }
@@ -102,6 +140,6 @@ void
 __wrap_free(void * p)
 {
 	struct ent * e;
-	if (p != NULL && (e = find(p)) != NULL) { if (alloc_free_hook) alloc_free_hook(p, e->sz); removeent(e); }
+	if (p != NULL && (e = find(p)) != NULL) { int sh = e->shift; if (alloc_free_hook) alloc_free_hook(p, e->sz); removeent(e); if (sh) { __real_free((char *)p - sh); return; } }
 	__real_free(p);
 }
